@@ -12,7 +12,7 @@ from .. import summary as SM
 from .. import symx as SX
 from ..model import get_arg, is_self_attr, method_name, strip_doc
 from ..symx import safe_simplify
-from ..report import AnalysisError, norm_src
+from ..report import AnalysisError, Ctx, norm_src
 
 EVIDENCE_FIELDS = {"visited_times", "rewards", "mean_reward", "variance", "reward", "reward_tilde"}
 # zero-credit paths of receive_reward that are part of the algorithm's documented state machine
@@ -515,8 +515,42 @@ def base_case(e, T):
     return canon_mean(e, T, invariant=False).subs(SX.SUM(R), 0).subs(Tn, 0).subs(T.sym("mean_reward"), 0)
 
 
+def check_stored_fields(ctx, only=None):
+    """Every attribute a cell class reads through `self.<a>` in its own methods is a STORED field - assigned by a constructor of
+    the class chain - and not a property or method computing it from other fields: a derived count/mean changes when the field
+    it is derived from is reset (StroquOOL's remove_reward), although no reward was recorded or withdrawn for it."""
+    model = ctx.model
+    for c in sorted(model.subclasses("P_node"), key=lambda c: c.name):
+        if only is not None and c.name not in only:
+            continue
+        chain = model.mro(c.name)
+        stored = set()
+        for k in chain:
+            init = k.methods.get("__init__")
+            if init is not None:
+                for x in ast.walk(init):
+                    if is_self_attr(x) and isinstance(x.ctx, ast.Store):
+                        stored.add(x.attr)
+        props = {}
+        for k in chain:
+            for name, f in k.methods.items():
+                if any(isinstance(d, ast.Name) and d.id == "property" for d in f.decorator_list) or \
+                        any(isinstance(d, ast.Attribute) and d.attr in ("setter", "getter") for d in f.decorator_list):
+                    props.setdefault(name, (k, f))
+        for name, (k, f) in sorted(props.items()):
+            reads = any(is_self_attr(x, name) for k2 in chain for f2 in k2.methods.values() for x in ast.walk(f2))
+            if reads or name in stored:
+                ctx.violation("R04-NODE", k.file, "%s.%s" % (k.name, name), "@property %s" % name,
+                              "the evidence field '%s' of %s is computed by a property instead of being stored: it changes whenever the fields "
+                              "it is derived from change, not only when a reward is recorded" % (name, c.name), f.lineno)
+        ctx.ob("R04-NODE", not [n2 for n2 in props if any(is_self_attr(x, n2) for k2 in chain for f2 in k2.methods.values() for x in ast.walk(f2))],
+               c.file, c.name, "evidence fields are stored fields", "%d constructor-assigned field(s), %d propert%s" % (
+                   len(stored), len(props), "y" if len(props) == 1 else "ies"), c.node.lineno, nontrivial=False, finding=False)
+
+
 def check_node_classes(ctx, only=None):
     model = ctx.model
+    check_stored_fields(ctx, only)
     n = 0
     for c in sorted(model.subclasses("P_node"), key=lambda c: c.name):
         if "update_reward" not in c.methods or (only is not None and c.name not in only):
@@ -690,6 +724,38 @@ def remove_reward_site_ok(model, c, fn, call):
                 for s in guard.body[:idx])
     if not built:
         return False, "candidates are cleared before the candidate list is built"
+    # the exception covers the reward LIST only: the evaluation count of the cell must survive it - what the count getter reads
+    # (directly or through own methods / inlined properties) is disjoint from what remove_reward writes
+    ncls = model.node_class_of_algo(c.name)
+    if ncls in model.classes:
+        owner_r, rr = model.lookup(ncls, "remove_reward")
+        owner_g, gv = model.lookup(ncls, "get_visited_times")
+        if rr is not None and gv is not None:
+            def attrs(fn2, store, seen=None):
+                seen = seen or set()
+                if id(fn2) in seen:
+                    return set()
+                seen.add(id(fn2))
+                out = set()
+                for x in ast.walk(fn2):
+                    if is_self_attr(x) and isinstance(x.ctx, ast.Store if store else ast.Load):
+                        o2, f3 = model.lookup(ncls, x.attr)
+                        if f3 is not None and not store:
+                            out |= attrs(f3, store, seen)
+                        else:
+                            out.add(x.attr)
+                    if isinstance(x, ast.Call) and isinstance(x.func, ast.Attribute) and is_self_attr(x.func):
+                        o2, f3 = model.lookup(ncls, x.func.attr)
+                        if f3 is not None:
+                            out |= attrs(f3, store, seen)
+                    if store and isinstance(x, ast.Call) and isinstance(x.func, ast.Attribute) and is_self_attr(x.func.value) and \
+                            x.func.attr in ("clear", "pop", "remove", "append", "extend"):
+                        out.add(x.func.value.attr)
+                return out
+            clash = attrs(rr, True) & attrs(gv, False)
+            if clash:
+                return False, ("remove_reward resets %s, which the evaluation count (get_visited_times) is read from: the count of a final "
+                               "candidate no longer equals the number of rewards it was credited with" % sorted(clash))
     return True, "documented exception: final candidates restart their reward list once, when validation begins"
 
 
@@ -796,6 +862,16 @@ def run(ctx):
     # rewards are credited along parent/child links: a cell's child list must hold exactly its own children (C03's one-step lemma: no aliasing between a child list and a layer, parent/child links consistent)
     from . import _partition
     _partition.feed(ctx, (), rename={"R03-ALIAS": "R04-TREE", "R03-LINK": "R04-TREE"})
+    # ... and nothing outside the partition may edit those lists (C03's who-may-write rule): a cell removed from its parent's child
+    # list keeps its evidence where the property does not look for it (the tree reachable from the root)
+    from . import c03
+    tmp = Ctx(ctx.prop, ctx.tier, ctx.seed, ctx.model)
+    c03.check_own(tmp)
+    for f in tmp.findings:
+        if f.rule == "R03-OWN":
+            ctx.add_finding("R04-TREE", f.file, f.qual, f.construct, "the tree's lists are edited outside the partition: %s" % f.why, f.line)
+    ctx.ob("R04-TREE", not [f for f in tmp.findings if f.rule == "R03-OWN"], "PyXAB/algos", "*", "who-may-write scan",
+           "child lists, layers and link fields are written by the partition only", nontrivial=False, finding=False)
     return dict(
         explanation=(
             "ONCE: receive_reward of each of the 14 algorithms is walked path by path (own methods inlined, parameters substituted); "
